@@ -6,6 +6,7 @@
     [TB "SUBCMD"; TI c; TI t; request frame]  -> [TI closed; every frame connection c has received and
                                                   not read yet, incl. what this request produces]
     [TB "DRAIN"; TI c; TI t]                  -> [TI 0; frames pushed to c and not read yet]
+    [TB "SUBRAW"; TI c; TI t; TB bytes]       -> as RAW with one chunk (the harness delimits by a marker)
     The runner keeps, per connection, the frames the server has written and the client has not
     read yet ([outbox]): CMD reads exactly one frame, so after a PUBLISH that reaches the
     publisher itself, or a SUBSCRIBE with several channels, later reads see the leftovers. *)
@@ -162,7 +163,7 @@ Definition srv_op (so : server * outbox) (op : list tok) : list tok * (server * 
         | TI t :: _ => ([], (sweep_all t s, ob))
         | _ => ([TB (bs "BADOP")], so)
         end
-      else if beq name (bs "RAW") then
+      else if beq name (bs "RAW") || beq name (bs "SUBRAW") then
         (* [TB "RAW"; TI c; TI t; chunks...] -> [TI closed; canonical reply frames...] *)
         match rest with
         | TI c :: TI t :: chunks =>
